@@ -140,6 +140,6 @@ fn inject<const SHAPE: u8>() {
     }
     std::mem::forget(call);
 }
-macro_rules! ij_h { ($($n:ident: $a:expr;)*) => { $(#[kani::proof] #[kani::unwind(8)] #[kani::stub(std::ptr::drop_in_place, no_drop)] #[kani::stub(core::ptr::drop_glue, no_glue)] fn $n() { inject::<$a>() })* } }
+macro_rules! ij_h { ($($n:ident: $a:expr;)*) => { $(#[kani::proof] #[kani::unwind(4)] #[kani::stub(std::ptr::drop_in_place, no_drop)] #[kani::stub(core::ptr::drop_glue, no_glue)] fn $n() { inject::<$a>() })* } }
 ij_h! { inject_no_options: 0; inject_other_key: 1; inject_same_ident_key: 2; inject_same_string_key: 3; inject_nonliteral_options: 4; inject_spread_args: 5; inject_literal_with_spread: 6; inject_shorthand_key: 7; }
 
